@@ -368,3 +368,521 @@ Section NormLocal.
     destruct st as [j|]; [|reflexivity]. cbn [start_le] in Hs. rewrite uget_firstn by lia. reflexivity.
   Qed.
 End NormLocal.
+
+(* ---- warm-up cuts: the states reached while every start index was None -------------------------------- *)
+(* `cnt_ok xs m`: the counter m is at least 1 when the first element of the series is non-null — what the
+   post step of a call with start = Some 0 needs (n -= 1 on usize) *)
+Definition cnt_ok {T A} {DT : IsNone T A} (xs : list T) (m : nat) : Prop :=
+  forall v0, nth_error xs 0 = Some v0 -> not_none v0 = true -> 1 <= m.
+
+Lemma uget_0_ok {T} (xs : list T) e v : nth_error xs e = Some v -> exists v0, nth_error xs 0 = Some v0.
+Proof. intros H. destruct xs as [|x xs']; [destruct e; discriminate|]. exists x. reflexivity. Qed.
+
+Section ExtWarm.
+  Context {A : Type} {NA : Num A} {T : Type} {DT : IsNone T A}.
+  Variable scmp : option A -> option A -> comparison.
+  Hypothesis scmp_nn : takes (scmp None None) = true.
+  Variable xs : list T.
+
+  Definition inv_ext (e : nat) (s : @ext A) : Prop :=
+    (e = 0 -> s = ext0) /\ (1 <= e -> x_idx s <> None /\ cnt_ok xs (x_n s)).
+
+  (* the closure's first statements: count the new element, adopt it when nothing is cached *)
+  Definition bump (s : @ext A) (e : nat) (v : T) : @ext A :=
+    match to_opt v with
+    | Some _ => match x_idx s with
+                | None => {| x_val := to_opt v; x_idx := Some e; x_n := S (x_n s) |}
+                | Some _ => {| x_val := x_val s; x_idx := x_idx s; x_n := S (x_n s) |}
+                end
+    | None => s
+    end.
+  Definition step_none (s : @ext A) (e : nat) (v : T) : @ext A :=
+    if takes (scmp (to_opt v) (x_val (bump s e v)))
+    then {| x_val := to_opt v; x_idx := Some e; x_n := x_n (bump s e v) |} else bump s e v.
+
+  Lemma ext_step_none s e v : ext_step scmp xs s None e v = Ok (step_none s e v).
+  Proof.
+    unfold ext_step, step_none, bump. cbv zeta. rewrite opt_lt_none. match goal with |- context [takes ?c] => destruct (takes c) end; reflexivity.
+  Qed.
+
+  Lemma ext_step_some0 s e v : inv_ext e s -> nth_error xs e = Some v ->
+    ext_step scmp xs s (Some 0) e v = Ok (step_none s e v).
+  Proof.
+    intros [I0 I1] Hv. unfold ext_step, step_none, bump. cbv zeta.
+    destruct (to_opt v) as [a|] eqn:Ev.
+    - destruct (x_idx s) as [j|] eqn:Ej; cbn [x_idx x_val x_n opt_lt].
+      + replace (j <? 0) with false by (symmetry; apply Nat.ltb_ge; lia). match goal with |- context [takes ?c] => destruct (takes c) end; reflexivity.
+      + replace (e <? 0) with false by (symmetry; apply Nat.ltb_ge; lia). match goal with |- context [takes ?c] => destruct (takes c) end; reflexivity.
+    - destruct (x_idx s) as [j|] eqn:Ej; cbn [opt_lt].
+      + replace (j <? 0) with false by (symmetry; apply Nat.ltb_ge; lia). match goal with |- context [takes ?c] => destruct (takes c) end; reflexivity.
+      + destruct e as [|e]; [|exfalso; destruct (I1 ltac:(lia)) as [H _]; apply H; reflexivity].
+        rewrite (I0 eq_refl) in *. cbn [x_val x_idx x_n ext0 Nat.sub rescan]. unfold uget. rewrite Hv. cbn [bind].
+        rewrite Ev, scmp_nn. reflexivity.
+  Qed.
+
+  Lemma bump_n s e v : x_n s <= x_n (bump s e v) /\ (not_none v = true -> 1 <= x_n (bump s e v)).
+  Proof.
+    unfold bump, to_opt, not_none. destruct (is_none v); cbn [negb].
+    - split; [lia|discriminate].
+    - destruct (x_idx s); cbn [x_n]; split; lia.
+  Qed.
+  Lemma step_none_n s e v : x_n (step_none s e v) = x_n (bump s e v).
+  Proof. unfold step_none. match goal with |- context [takes ?c] => destruct (takes c) end; reflexivity. Qed.
+
+  Lemma inv_ext_step s e v : inv_ext e s -> nth_error xs e = Some v -> inv_ext (S e) (step_none s e v).
+  Proof.
+    intros [I0 I1] Hv. split; [discriminate|]. intros _. split.
+    - unfold step_none. match goal with |- context [takes ?c] => destruct (takes c) eqn:Et end; [discriminate|]. unfold bump in *.
+      destruct (to_opt v) as [a|] eqn:Ev.
+      + destruct (x_idx s) eqn:Ej; cbn [x_idx]; discriminate.
+      + destruct e as [|e]; [|apply I1; lia].
+        rewrite (I0 eq_refl) in Et. cbn [x_val ext0] in Et. rewrite scmp_nn in Et. discriminate.
+    - rewrite step_none_n. intros v0 H0 Hn0. destruct (bump_n s e v) as [B1 B2].
+      destruct e as [|e].
+      + rewrite Hv in H0. injection H0 as <-. apply B2. exact Hn0.
+      + destruct (I1 ltac:(lia)) as [_ Hc]. specialize (Hc v0 H0 Hn0). lia.
+  Qed.
+
+  Lemma ext_post_some0 (s1 : @ext A) e v : nth_error xs e = Some v -> cnt_ok xs (x_n s1) ->
+    exists s', ext_post xs s1 (Some 0) = Ok s'.
+  Proof.
+    intros Hv Hc. destruct (uget_0_ok xs e v Hv) as [v0 H0]. unfold ext_post, uget. rewrite H0. cbn [bind].
+    destruct (not_none v0) eqn:En; [|eauto]. specialize (Hc v0 H0 En). unfold usub.
+    replace (1 <=? x_n s1) with true by (symmetry; apply Nat.leb_le; exact Hc). cbn [bind]. eauto.
+  Qed.
+
+  (* what family_prefix asks for in a warm-up cut *)
+  Lemma vext_warm_inner mp e v s : nth_error xs e = Some v -> inv_ext e s ->
+    forall s' o, vext_cb scmp mp xs s (None, e, v) = Ok (s', o) -> inv_ext (S e) s'.
+  Proof.
+    intros Hv HI s' o H. unfold vext_cb in H. rewrite ext_step_none in H. cbn [bind ext_post] in H.
+    injection H as <- _. apply inv_ext_step; assumption.
+  Qed.
+  Lemma vext_warm_last mp e v s s2 o : nth_error xs e = Some v -> inv_ext e s ->
+    vext_cb scmp mp xs s (None, e, v) = Ok (s2, o) -> exists s1, vext_cb scmp mp xs s (Some 0, e, v) = Ok (s1, o).
+  Proof.
+    intros Hv HI H. unfold vext_cb in *. rewrite ext_step_none in H. rewrite (ext_step_some0 s e v HI Hv).
+    cbn [bind ext_post] in H. cbn [bind]. injection H as _ <-.
+    destruct (ext_post_some0 (step_none s e v) e v Hv) as [s' Hs'].
+    { destruct (inv_ext_step s e v HI Hv) as [_ H1]. apply H1. lia. }
+    rewrite Hs'. cbn [bind]. eauto.
+  Qed.
+
+  Lemma varg_warm_inner mp e v s : nth_error xs e = Some v -> inv_ext e s ->
+    forall s' o, varg_cb scmp mp xs s (None, e, v) = Ok (s', o) -> inv_ext (S e) s'.
+  Proof.
+    intros Hv HI s' o H. unfold varg_cb in H. rewrite ext_step_none in H. cbn [bind ext_post] in H.
+    destruct (_ : res (option nat)) as [oo|pk] in H; [|discriminate]. cbn [bind] in H.
+    injection H as <- _. apply inv_ext_step; assumption.
+  Qed.
+  Lemma varg_warm_last mp e v s s2 o : nth_error xs e = Some v -> inv_ext e s ->
+    varg_cb scmp mp xs s (None, e, v) = Ok (s2, o) -> exists s1, varg_cb scmp mp xs s (Some 0, e, v) = Ok (s1, o).
+  Proof.
+    intros Hv HI H. unfold varg_cb in *. rewrite ext_step_none in H. rewrite (ext_step_some0 s e v HI Hv).
+    cbn [bind ext_post] in H. cbn [bind].
+    destruct (_ : res (option nat)) as [oo|pk] in H |- *; [|discriminate]. cbn [bind] in *.
+    injection H as _ <-.
+    destruct (ext_post_some0 (step_none s e v) e v Hv) as [s' Hs'].
+    { destruct (inv_ext_step s e v HI Hv) as [_ H1]. apply H1. lia. }
+    rewrite Hs'. cbn [bind]. eauto.
+  Qed.
+
+  Lemma inv_ext_0 : inv_ext 0 ext0.
+  Proof. split; [reflexivity|lia]. Qed.
+End ExtWarm.
+
+Section RankWarm.
+  Context {A : Type} {NA : Num A} {T : Type} {DT : IsNone T A} {B : Type} {NB : Num B}.
+  Variable xs : list T.
+
+  Definition inv_cnt (e : nat) (m : nat) : Prop := 1 <= e -> cnt_ok xs m.
+
+  (* the part of the closure before the removal: (new count, output) *)
+  Definition rank_head (mp : nat) (pct rev : bool) (m : nat) (st : option nat) (e : nat) (v : T) : res (nat * B) :=
+    do r <- (if not_none v then
+               let from := match st with Some j => j | None => 0 end in
+               do rr <- rank_loop xs (unwrap v) from (e - from) none 1;
+               Ok (S m, fst rr, snd rr)
+             else Ok (m, nnan, 1));
+    let '(n1, rank, nrep) := r in Ok (n1, rank_out mp pct rev n1 rank nrep).
+
+  Lemma vrank_cb_head mp wm1 pct rev m st e v :
+    vrank_cb mp wm1 pct rev xs m (st, e, v) =
+    do h <- rank_head mp pct rev m st e v;
+    do n2 <- (if wm1 <=? e then
+                match st with
+                | None => Panic UnwrapNone
+                | Some j => do v0 <- uget xs j; if not_none v0 then usub (fst h) 1 else Ok (fst h)
+                end
+              else Ok (fst h));
+    Ok (n2, snd h).
+  Proof.
+    unfold vrank_cb, rank_head.
+    destruct (not_none v); cbn [bind].
+    - destruct (rank_loop _ _ _ _ _ _) as [rr|pk]; reflexivity.
+    - reflexivity.
+  Qed.
+
+  Lemma rank_head_start mp pct rev m e v :
+    rank_head mp pct rev m (Some 0) e v = rank_head mp pct rev m None e v.
+  Proof. reflexivity. Qed.
+
+  Lemma rank_head_n mp pct rev m st e v h :
+    rank_head mp pct rev m st e v = Ok h -> m <= fst h /\ (not_none v = true -> 1 <= fst h).
+  Proof.
+    unfold rank_head. destruct (not_none v); cbn [bind].
+    - destruct (rank_loop _ _ _ _ _ _) as [rr|pk]; cbn [bind]; [|discriminate].
+      intros H. injection H as <-. cbn [fst]. split; lia.
+    - intros H. injection H as <-. cbn [fst]. split; [lia|discriminate].
+  Qed.
+
+  Lemma inv_cnt_step mp pct rev m e v h : inv_cnt e m -> nth_error xs e = Some v ->
+    rank_head mp pct rev m None e v = Ok h -> inv_cnt (S e) (fst h).
+  Proof.
+    intros HI Hv Hh _ v0 H0 Hn0. destruct (rank_head_n _ _ _ _ _ _ _ _ Hh) as [B1 B2].
+    destruct e as [|e].
+    - rewrite Hv in H0. injection H0 as <-. apply B2. exact Hn0.
+    - specialize (HI ltac:(lia) v0 H0 Hn0). lia.
+  Qed.
+
+  (* inner positions of a warm-up cut: e is below both thresholds, so neither run removes anything *)
+  Lemma vrank_warm_inner mp wa wb pct rev e v m : S e <= wa -> S e <= wb ->
+    nth_error xs e = Some v -> inv_cnt e m ->
+    vrank_cb (B := B) mp wa pct rev xs m (None, e, v) = vrank_cb mp wb pct rev xs m (None, e, v) /\
+    forall s' o, vrank_cb (B := B) mp wb pct rev xs m (None, e, v) = Ok (s', o) -> inv_cnt (S e) s'.
+  Proof.
+    intros Ha Hb Hv HI. rewrite !vrank_cb_head.
+    replace (wa <=? e) with false by (symmetry; apply Nat.leb_gt; lia).
+    replace (wb <=? e) with false by (symmetry; apply Nat.leb_gt; lia).
+    split; [reflexivity|]. intros s' o H.
+    destruct (rank_head mp pct rev m None e v) as [h|pk] eqn:Eh; [|discriminate]. cbn [bind] in H.
+    injection H as <- _. apply (inv_cnt_step mp pct rev m e v h HI Hv Eh).
+  Qed.
+
+  Lemma vrank_warm_last mp wb pct rev e v m s2 o : S e <= wb ->
+    nth_error xs e = Some v -> inv_cnt e m ->
+    vrank_cb (B := B) mp wb pct rev xs m (None, e, v) = Ok (s2, o) ->
+    exists s1, vrank_cb (B := B) mp e pct rev xs m (Some 0, e, v) = Ok (s1, o).
+  Proof.
+    intros Hb Hv HI H. rewrite vrank_cb_head in *. rewrite rank_head_start.
+    replace (wb <=? e) with false in H by (symmetry; apply Nat.leb_gt; lia).
+    rewrite Nat.leb_refl.
+    destruct (rank_head mp pct rev m None e v) as [h|pk] eqn:Eh; [|discriminate]. cbn [bind] in *.
+    injection H as _ <-.
+    destruct (uget_0_ok xs e v Hv) as [v0 H0]. unfold uget. rewrite H0. cbn [bind].
+    destruct (not_none v0) eqn:En; [|cbn [bind]; eauto].
+    pose proof (inv_cnt_step mp pct rev m e v h HI Hv Eh ltac:(lia) v0 H0 En) as Hc. unfold usub.
+    replace (1 <=? fst h) with true by (symmetry; apply Nat.leb_le; exact Hc). cbn [bind]. eauto.
+  Qed.
+
+  Lemma inv_cnt_0 : inv_cnt 0 0.
+  Proof. intros H. lia. Qed.
+End RankWarm.
+
+Section NormWarm.
+  Context {A : Type} {NA : Num A} {T : Type} {DT : IsNone T A}.
+  Variables tmin tmax : A.
+  Variable xs : list T.
+  Local Open Scope num_scope.
+
+  Definition inv_mm (e : nat) (s : @mm A) : Prop := (1 <= e)%nat -> cnt_ok xs (mm_n s).
+
+  (* the update by the current element and the output: no read of the series *)
+  Definition mm_head (mp : nat) (s1 : @mm A) (e : nat) (v : T) : @mm A * A :=
+    if not_none v then
+      let x := unwrap v in
+      let n := S (mm_n s1) in
+      let '(mx, mxi) := if nleb (mm_max s1) x then (x, e) else (mm_max s1, mm_maxi s1) in
+      let '(mn, mni) := if nleb x (mm_min s1) then (x, e) else (mm_min s1, mm_mini s1) in
+      ({| mm_max := mx; mm_maxi := mxi; mm_min := mn; mm_mini := mni; mm_n := n |},
+       if (mp <=? n)%nat && negb (neqb mx mn) then (x - mn) / (mx - mn) else nnan)
+    else (s1, nnan).
+
+  Lemma mm_head_n mp s1 e v : (mm_n s1 <= mm_n (fst (mm_head mp s1 e v)))%nat /\
+                              (not_none v = true -> (1 <= mm_n (fst (mm_head mp s1 e v)))%nat).
+  Proof.
+    unfold mm_head. destruct (not_none v).
+    - destruct (nleb (mm_max s1) (unwrap v)), (nleb (unwrap v) (mm_min s1)); cbn [fst mm_n]; split; lia.
+    - cbn [fst]. split; [lia|discriminate].
+  Qed.
+
+  Lemma mmnorm_cb_none mp s e v :
+    mmnorm_cb tmin tmax mp xs s (None, e, v) = Ok (mm_head mp s e v).
+  Proof.
+    unfold mmnorm_cb, mm_research, mm_head. cbn [bind].
+    destruct (not_none v); [|reflexivity].
+    destruct (nleb (mm_max s) (unwrap v)), (nleb (unwrap v) (mm_min s)); reflexivity.
+  Qed.
+
+  Lemma mm_research_some0 s e : mm_research tmin tmax xs s (Some 0) e = Ok s.
+  Proof.
+    unfold mm_research.
+    replace (mm_maxi s <? 0)%nat with false by (symmetry; apply Nat.ltb_ge; lia).
+    replace (mm_mini s <? 0)%nat with false by (symmetry; apply Nat.ltb_ge; lia). reflexivity.
+  Qed.
+
+  Lemma inv_mm_step mp s e v : inv_mm e s -> nth_error xs e = Some v -> inv_mm (S e) (fst (mm_head mp s e v)).
+  Proof.
+    intros HI Hv _ v0 H0 Hn0. destruct (mm_head_n mp s e v) as [B1 B2]. destruct e as [|e].
+    - rewrite Hv in H0. injection H0 as <-. apply B2. exact Hn0.
+    - specialize (HI ltac:(lia) v0 H0 Hn0). lia.
+  Qed.
+
+  Lemma mmnorm_warm_inner mp e v s : nth_error xs e = Some v -> inv_mm e s ->
+    forall s' o, mmnorm_cb tmin tmax mp xs s (None, e, v) = Ok (s', o) -> inv_mm (S e) s'.
+  Proof.
+    intros Hv HI s' o H. rewrite mmnorm_cb_none in H. injection H as H.
+    replace s' with (fst (mm_head mp s e v)) by (rewrite H; reflexivity). apply inv_mm_step; assumption.
+  Qed.
+
+  Lemma mmnorm_cb_some0 mp s e v :
+    mmnorm_cb tmin tmax mp xs s (Some 0, e, v) =
+    let h := mm_head mp s e v in
+    do s3 <- (do v0 <- uget xs 0;
+              if not_none v0 then
+                do n' <- usub (mm_n (fst h)) 1;
+                Ok {| mm_max := mm_max (fst h); mm_maxi := mm_maxi (fst h); mm_min := mm_min (fst h);
+                      mm_mini := mm_mini (fst h); mm_n := n' |}
+              else Ok (fst h));
+    Ok (s3, snd h).
+  Proof.
+    unfold mmnorm_cb. rewrite mm_research_some0. unfold mm_head. cbn [bind].
+    destruct (not_none v); [|reflexivity].
+    destruct (nleb (mm_max s) (unwrap v)), (nleb (unwrap v) (mm_min s)); reflexivity.
+  Qed.
+
+  Lemma mmnorm_warm_last mp e v s s2 o : nth_error xs e = Some v -> inv_mm e s ->
+    mmnorm_cb tmin tmax mp xs s (None, e, v) = Ok (s2, o) ->
+    exists s1, mmnorm_cb tmin tmax mp xs s (Some 0, e, v) = Ok (s1, o).
+  Proof.
+    intros Hv HI H. rewrite mmnorm_cb_none in H. injection H as H.
+    pose proof (inv_mm_step mp s e v HI Hv) as HI'.
+    rewrite mmnorm_cb_some0. cbv zeta. rewrite H in *. cbn [fst snd] in *.
+    destruct (uget_0_ok xs e v Hv) as [v0 H0]. unfold uget. rewrite H0. cbn [bind].
+    destruct (not_none v0) eqn:En; [|cbn [bind]; eauto].
+    pose proof (HI' ltac:(lia) v0 H0 En) as Hc. unfold usub.
+    replace (1 <=? mm_n s2)%nat with true by (symmetry; apply Nat.leb_le; exact Hc). cbn [bind]. eauto.
+  Qed.
+
+  Lemma inv_mm_0 : inv_mm 0 (mm0 tmin tmax).
+  Proof. intros H. lia. Qed.
+End NormWarm.
+
+(* ---- the prefix law of the entry points, every carrier ------------------------------------------------ *)
+Lemma firstn_out_nil {X O} (xs : list X) (out : list O) k :
+  length out = length xs -> Nat.min k (length xs) = 0 -> firstn k xs = [] /\ firstn k out = [].
+Proof.
+  intros HL H0. destruct k as [|k']; [split; reflexivity|].
+  destruct xs as [|x xs']; [|cbn in H0; lia]. destruct out; [split; reflexivity|discriminate].
+Qed.
+
+Ltac cmp_cases n w len :=
+  destruct (Nat.le_gt_cases w n) as [Hfit|Hwarm];
+  [|destruct (Nat.eq_dec n len) as [Hall|Hcut]].
+
+Section CmpPrefix.
+  Context {A : Type} {NA : Num A} {T : Type} {DT : IsNone T A}.
+  Variable scmp : option A -> option A -> comparison.
+  Hypothesis scmp_nn : takes (scmp None None) = true.
+
+  Theorem ts_vext_prefix body w mp (xs : list T) k out :
+    1 <= w -> cmp_dom w mp (Nat.min k (length xs)) -> cmp_dom w mp (length xs) ->
+    ts_vext scmp body w mp xs = Done out -> ts_vext scmp body w mp (firstn k xs) = Done (firstn k out).
+  Proof.
+    intros Hw D1 D2 H. unfold ts_vext in *.
+    rewrite (cmp_mp_const w mp xs D2) in H.
+    rewrite (cmp_mp_const w mp (firstn k xs)) by (rewrite firstn_length; exact D1).
+    unfold cmp_window in *. rewrite firstn_length. set (n := Nat.min k (length xs)) in *.
+    set (m := cmp_mp mp w) in *.
+    destruct (Nat.eq_dec n 0) as [En|En].
+    - assert (HL : length out = length xs).
+      { destruct xs as [|x xs']; [rewrite idx_run_nil_any in H; injection H as <-; reflexivity|].
+        eapply idx_run_Done_length; [|exact H]. cbn [length]. lia. }
+      destruct (firstn_out_nil xs out k HL En) as [E1 E2]. rewrite E1, E2. apply idx_run_nil_any.
+    - assert (Hlen : n <= length xs) by (unfold n; lia).
+      apply (family_prefix (vext_cb scmp m) (vext_cb scmp m) xs k body (Nat.min n w) (Nat.min (length xs) w)
+                           (inv_ext xs) ext0 out); try lia; try exact H; fold n.
+      + intros s st e v He Hs. apply vext_cb_firstn; assumption.
+      + cmp_cases n w (length xs).
+        * left. split; [unfold eff_window; destruct body; lia|reflexivity].
+        * left. split; [rewrite Hall; reflexivity|reflexivity].
+        * right. split; [unfold eff_window; destruct body; lia|].
+          split; [unfold eff_window; destruct body; lia|]. split; [exact (inv_ext_0 scmp scmp_nn xs)|]. split.
+          -- intros e v s He Hv HI. split; [reflexivity|]. apply (vext_warm_inner scmp scmp_nn xs m e v s Hv HI).
+          -- intros e v s s2 o He Hv HI Hc. apply (vext_warm_last scmp scmp_nn xs m e v s s2 o Hv HI Hc).
+  Qed.
+
+  Theorem ts_varg_prefix body w mp (xs : list T) k out :
+    1 <= w -> cmp_dom w mp (Nat.min k (length xs)) -> cmp_dom w mp (length xs) ->
+    ts_varg scmp body w mp xs = Done out -> ts_varg scmp body w mp (firstn k xs) = Done (firstn k out).
+  Proof.
+    intros Hw D1 D2 H. unfold ts_varg in *.
+    rewrite (cmp_mp_const w mp xs D2) in H.
+    rewrite (cmp_mp_const w mp (firstn k xs)) by (rewrite firstn_length; exact D1).
+    unfold cmp_window in *. rewrite firstn_length. set (n := Nat.min k (length xs)) in *.
+    set (m := cmp_mp mp w) in *.
+    destruct (Nat.eq_dec n 0) as [En|En].
+    - assert (HL : length out = length xs).
+      { destruct xs as [|x xs']; [rewrite idx_run_nil_any in H; injection H as <-; reflexivity|].
+        eapply idx_run_Done_length; [|exact H]. cbn [length]. lia. }
+      destruct (firstn_out_nil xs out k HL En) as [E1 E2]. rewrite E1, E2. apply idx_run_nil_any.
+    - assert (Hlen : n <= length xs) by (unfold n; lia).
+      apply (family_prefix (varg_cb scmp m) (varg_cb scmp m) xs k body (Nat.min n w) (Nat.min (length xs) w)
+                           (inv_ext xs) ext0 out); try lia; try exact H; fold n.
+      + intros s st e v He Hs. apply varg_cb_firstn; assumption.
+      + cmp_cases n w (length xs).
+        * left. split; [unfold eff_window; destruct body; lia|reflexivity].
+        * left. split; [rewrite Hall; reflexivity|reflexivity].
+        * right. split; [unfold eff_window; destruct body; lia|].
+          split; [unfold eff_window; destruct body; lia|]. split; [exact (inv_ext_0 scmp scmp_nn xs)|]. split.
+          -- intros e v s He Hv HI. split; [reflexivity|]. apply (varg_warm_inner scmp scmp_nn xs m e v s Hv HI).
+          -- intros e v s s2 o He Hv HI Hc. apply (varg_warm_last scmp scmp_nn xs m e v s s2 o Hv HI Hc).
+  Qed.
+End CmpPrefix.
+
+Section EntryPrefix.
+  Context {A : Type} {NA : Num A} {T : Type} {DT : IsNone T A}.
+
+  Theorem ts_vmin_prefix_any body w mp (xs : list T) k out :
+    1 <= w -> cmp_dom w mp (Nat.min k (length xs)) -> cmp_dom w mp (length xs) ->
+    ts_vmin body w mp xs = Done out -> ts_vmin body w mp (firstn k xs) = Done (firstn k out).
+  Proof. apply ts_vext_prefix. reflexivity. Qed.
+  Theorem ts_vmax_prefix_any body w mp (xs : list T) k out :
+    1 <= w -> cmp_dom w mp (Nat.min k (length xs)) -> cmp_dom w mp (length xs) ->
+    ts_vmax body w mp xs = Done out -> ts_vmax body w mp (firstn k xs) = Done (firstn k out).
+  Proof. apply ts_vext_prefix. reflexivity. Qed.
+  Theorem ts_vargmin_prefix_any body w mp (xs : list T) k out :
+    1 <= w -> cmp_dom w mp (Nat.min k (length xs)) -> cmp_dom w mp (length xs) ->
+    ts_vargmin body w mp xs = Done out -> ts_vargmin body w mp (firstn k xs) = Done (firstn k out).
+  Proof. apply ts_varg_prefix. reflexivity. Qed.
+  Theorem ts_vargmax_prefix_any body w mp (xs : list T) k out :
+    1 <= w -> cmp_dom w mp (Nat.min k (length xs)) -> cmp_dom w mp (length xs) ->
+    ts_vargmax body w mp xs = Done out -> ts_vargmax body w mp (firstn k xs) = Done (firstn k out).
+  Proof. apply ts_varg_prefix. reflexivity. Qed.
+
+  Theorem ts_vrank_prefix_any {B : Type} {NB : Num B} body w mp pct rev (xs : list T) k (out : list B) :
+    1 <= w -> cmp_dom w mp (Nat.min k (length xs)) -> cmp_dom w mp (length xs) ->
+    ts_vrank body w mp pct rev xs = Done out -> ts_vrank body w mp pct rev (firstn k xs) = Done (firstn k out).
+  Proof.
+    intros Hw D1 D2 H. unfold ts_vrank in *.
+    rewrite (cmp_mp_const w mp xs D2) in H.
+    rewrite (cmp_mp_const w mp (firstn k xs)) by (rewrite firstn_length; exact D1).
+    unfold cmp_window in *. rewrite firstn_length. set (n := Nat.min k (length xs)) in *.
+    set (m := cmp_mp mp w) in *.
+    destruct (Nat.eq_dec n 0) as [En|En].
+    - assert (HL : length out = length xs).
+      { destruct xs as [|x xs']; [rewrite idx_run_nil_any in H; injection H as <-; reflexivity|].
+        eapply idx_run_Done_length; [|exact H]. cbn [length]. lia. }
+      destruct (firstn_out_nil xs out k HL En) as [E1 E2]. rewrite E1, E2. apply idx_run_nil_any.
+    - assert (Hlen : n <= length xs) by (unfold n; lia).
+      apply (family_prefix (vrank_cb m (Nat.min n w - 1) pct rev)
+                           (vrank_cb m (Nat.min (length xs) w - 1) pct rev) xs k body
+                           (Nat.min n w) (Nat.min (length xs) w) (inv_cnt xs) 0 out); try lia; try exact H; fold n.
+      + intros s st e v He Hs. apply vrank_cb_firstn; assumption.
+      + cmp_cases n w (length xs).
+        * left. split; [unfold eff_window; destruct body; lia|].
+          intros s st e v He. replace (Nat.min n w) with (Nat.min (length xs) w) by lia. reflexivity.
+        * left. split; [rewrite Hall; reflexivity|]. intros s st e v He. rewrite Hall. reflexivity.
+        * right. split; [unfold eff_window; destruct body; lia|].
+          split; [unfold eff_window; destruct body; lia|]. split; [apply inv_cnt_0|]. split.
+          -- intros e v s He Hv HI. apply vrank_warm_inner; try assumption; lia.
+          -- intros e v s s2 o He Hv HI Hc. replace (Nat.min n w - 1) with e by lia.
+             apply (vrank_warm_last xs m (Nat.min (length xs) w - 1) pct rev e v s s2 o); try assumption; lia.
+  Qed.
+
+  Theorem ts_vminmaxnorm_prefix_any (tmin tmax : A) body w mp (xs : list T) k out :
+    1 <= w ->
+    ts_vminmaxnorm tmin tmax body w mp xs = Done out ->
+    ts_vminmaxnorm tmin tmax body w mp (firstn k xs) = Done (firstn k out).
+  Proof.
+    intros Hw H. unfold ts_vminmaxnorm in *. set (n := Nat.min k (length xs)). set (m := mp_eff mp w 0) in *.
+    destruct (Nat.eq_dec n 0) as [En|En].
+    - pose proof (idx_run_Done_length _ _ _ _ _ _ Hw H) as HL.
+      destruct (firstn_out_nil xs out k HL En) as [E1 E2]. rewrite E1, E2. apply idx_run_nil_any.
+    - assert (Hlen : n <= length xs) by (unfold n; lia).
+      apply (family_prefix (mmnorm_cb tmin tmax m) (mmnorm_cb tmin tmax m) xs k body w w
+                           (inv_mm xs) (mm0 tmin tmax) out); try lia; try exact H; fold n.
+      + intros s st e v He Hs. apply mmnorm_cb_firstn; assumption.
+      + destruct body; [|left; split; reflexivity]. cbn [eff_window].
+        cmp_cases n w (length xs).
+        * left. split; [lia|reflexivity].
+        * left. split; [rewrite Hall; reflexivity|reflexivity].
+        * right. split; [lia|]. split; [lia|]. split; [apply inv_mm_0|]. split.
+          -- intros e v s He Hv HI. split; [reflexivity|]. apply (mmnorm_warm_inner tmin tmax xs m e v s Hv HI).
+          -- intros e v s s2 o He Hv HI Hc. apply (mmnorm_warm_last tmin tmax xs m e v s s2 o Hv HI Hc).
+  Qed.
+End EntryPrefix.
+
+(* ---- the residual statistics: a pure callback over the zipped series ---------------------------------- *)
+Lemma run_lift_pure {St X O} (cb : St -> X -> St * O) args : forall s0,
+  run (lift_cb (fun s a => Ok (cb s a))) (Ok s0) args = map Ok (run cb s0 args).
+Proof.
+  induction args as [|a r IH]; intros s0; [reflexivity|]. cbn [run lift_cb].
+  destruct (cb s0 a) as [s' o]. cbn [map]. rewrite IH. reflexivity.
+Qed.
+
+Lemma idx_run_pure {T St O} body w (cb : St -> option nat * nat * T -> St * O) s0 (zs : list T) :
+  1 <= w ->
+  idx_run body w (fun s a => Ok (cb s a)) s0 zs
+  = if body then rolling_apply_idx_to w cb s0 zs else rolling_apply_idx_default w cb s0 zs.
+Proof.
+  intros Hw. rewrite idx_run_unfold by exact Hw. rewrite run_lift_pure. cbn [seal]. rewrite collect_map_Ok.
+  unfold idx_args. destruct body; cbn [eff_window].
+  - rewrite rolling_apply_idx_to_eq by exact Hw. reflexivity.
+  - rewrite rolling_apply_idx_default_eq by exact Hw. reflexivity.
+Qed.
+
+Section ResidPrefix.
+  Context {A : Type} {NA : Num A} {T1 : Type} {D1 : IsNone T1 A} {T2 : Type} {D2 : IsNone T2 A}.
+
+  Lemma resid_cb_firstn (k : rstat) mp (zs : list (T1 * T2)) n s st e v : e < n -> start_le st e ->
+    resid_cb k mp (firstn n zs) s (st, e, v) = resid_cb k mp zs s (st, e, v).
+  Proof.
+    intros He Hs. unfold resid_cb, resid_post, resid_emit. rewrite seg_firstn by lia. f_equal.
+    destruct st as [j|]; [|reflexivity]. cbn [start_le] in Hs. rewrite nth_error_firstn.
+    replace (j <? n) with true by (symmetry; apply Nat.ltb_lt; lia). reflexivity.
+  Qed.
+
+  Lemma resid_as_idx_run (k : rstat) body w mp (xs : list T1) (ys : list T2) :
+    1 <= w -> length xs <= length ys ->
+    ts_vregx_resid k body w mp xs ys
+    = idx_run body w (fun s a => Ok (resid_cb k (mp_eff mp w 0) (combine xs ys) s a)) csum0 (combine xs ys).
+  Proof.
+    intros Hw Hl. rewrite idx_run_pure by exact Hw.
+    unfold ts_vregx_resid, rolling2_apply_idx_to, rolling2_apply_idx_default.
+    replace (length ys <? length xs) with false by (symmetry; apply Nat.ltb_ge; lia). reflexivity.
+  Qed.
+
+  Theorem resid_prefix_any (k : rstat) body w mp (xs : list T1) (ys : list T2) n :
+    1 <= w -> length xs <= length ys ->
+    out_of (ts_vregx_resid k body w mp (firstn n xs) (firstn n ys))
+    = firstn n (out_of (ts_vregx_resid k body w mp xs ys)).
+  Proof.
+    intros Hw Hl.
+    rewrite !resid_as_idx_run by (try exact Hw; rewrite ?firstn_length; lia).
+    rewrite combine_firstn. set (zs := combine xs ys). set (m := mp_eff mp w 0).
+    set (c := fun (l : list (T1 * T2)) s a => Ok (resid_cb k m l s a)).
+    change (out_of (idx_run body w (c (firstn n zs)) csum0 (firstn n zs))
+            = firstn n (out_of (idx_run body w (c zs) csum0 zs))).
+    assert (Hwhole : exists out, idx_run body w (c zs) csum0 zs = Done out).
+    { unfold c. rewrite idx_run_pure by exact Hw. destruct body.
+      - rewrite rolling_apply_idx_to_eq by exact Hw. eauto.
+      - rewrite rolling_apply_idx_default_eq by exact Hw. eauto. }
+    destruct Hwhole as [out Hout]. rewrite Hout. cbn [out_of].
+    set (n' := Nat.min n (length zs)).
+    destruct (Nat.eq_dec n' 0) as [En|En].
+    { pose proof (idx_run_Done_length _ _ _ _ _ _ Hw Hout) as HL.
+      destruct (firstn_out_nil zs out n HL En) as [E1 E2]. rewrite E1, E2, idx_run_nil_any. reflexivity. }
+    assert (Hlen : n' <= length zs) by (unfold n'; lia).
+    rewrite (family_prefix c c zs n body w w (fun _ _ => True) csum0 out); try lia; try exact Hout;
+      [reflexivity| |]; fold n'.
+    - intros s st e v He Hs. unfold c. rewrite resid_cb_firstn by assumption. reflexivity.
+    - destruct body; [|left; split; reflexivity]. cbn [eff_window].
+      cmp_cases n' w (length zs).
+      + left. split; [lia|reflexivity].
+      + left. split; [rewrite Hall; reflexivity|reflexivity].
+      + right. split; [lia|]. split; [lia|]. split; [exact I|]. split.
+        * intros e v s He Hv _. split; [reflexivity|intros; exact I].
+        * intros e v s s2 o He Hv _ Hc. unfold c, resid_cb in *. injection Hc as _ <-. eexists. reflexivity.
+  Qed.
+End ResidPrefix.
